@@ -1,6 +1,6 @@
 (* C16: the theorems about hash/base64le used by Properties/C16.v. *)
 Require Import GC.Base.Bytes GC.B64.B64Model GC.B64.B64Spec.
-Require Export GC.B64.B64Bits GC.B64.B64EncProofs GC.B64.B64DecBase GC.B64.B64DecQuantum GC.B64.B64DecLoop.
+Require Export GC.B64.B64Bits GC.B64.B64EncProofs GC.B64.B64DecBase GC.B64.B64DecQuantum GC.B64.B64DecLoop GC.B64.B64DecContent GC.B64.B64Roundtrip GC.B64.B64Accept.
 
 Arguments Z.shiftl : simpl never. Arguments Z.shiftr : simpl never. Arguments Z.land : simpl never.
 Arguments Z.lor : simpl never. Arguments Z.mul : simpl never. Arguments Z.add : simpl never.
@@ -49,3 +49,49 @@ Proof.
   destruct (decode_slow_ok e t) as (out' & err & E & R). rewrite E in H. inversion H; subst.
   apply R. reflexivity.
 Qed.
+
+Theorem bad_symbol : forall e a c b, enc_ok e = true ->
+  forallb (fun x => is_symbol e x || is_newline x) a = true ->
+  is_symbol e c = false -> is_newline c = false -> is_pad e c = false ->
+  exists out, decode e (a ++ c :: b) = DOk out (Some (Z.of_nat (length a))).
+Proof.
+  intros e a c b Hok Ha H1 H2 H3. rewrite fast_slow by exact Hok. apply bad_symbol_slow; assumption.
+Qed.
+
+Theorem roundtrip_nl : forall e src t, enc_wf e = true -> wf_bytes src = true ->
+  strip_nl t = encode e src -> decode e t = DOk src None.
+Proof.
+  intros e src t Hwf Hb Hst. rewrite fast_slow by (apply enc_wf_ok; exact Hwf).
+  apply roundtrip_nl_slow; assumption.
+Qed.
+
+Theorem roundtrip : forall e src, enc_wf e = true -> wf_bytes src = true ->
+  decode e (encode e src) = DOk src None.
+Proof.
+  intros e src Hwf Hb. apply roundtrip_nl; auto. apply encode_strip; auto. apply enc_wf_ok; exact Hwf.
+Qed.
+
+Theorem accept_sound : forall e t out, enc_wf e = true ->
+  decode e t = DOk out None -> accepted_ok e t out = true /\ wf_bytes out = true.
+Proof.
+  intros e t out Hwf H. rewrite fast_slow in H by (apply enc_wf_ok; exact Hwf).
+  apply accept_sound_slow; assumption.
+Qed.
+
+Theorem strict_exact : forall e t out, enc_wf e = true -> e_strict e = true ->
+  decode e t = DOk out None -> strip_nl t = encode e out.
+Proof.
+  intros e t out Hwf Hst H. destruct (accept_sound e t out Hwf H) as [Ha _].
+  unfold accepted_ok in Ha. cbv zeta in Ha. rewrite Hst in Ha. apply bytes_eqb_eq. exact Ha.
+Qed.
+
+Print Assumptions encode_spec.
+Print Assumptions encoded_len.
+Print Assumptions roundtrip_nl.
+Print Assumptions roundtrip.
+Print Assumptions fast_slow.
+Print Assumptions no_panic.
+Print Assumptions accept_sound.
+Print Assumptions strict_exact.
+Print Assumptions error_range.
+Print Assumptions bad_symbol.
